@@ -258,8 +258,8 @@ def gen_break_text(d, live_ids=()):
         # an object of the running session by its id (and incarnation), as copied from the display
         i = d.choice(sorted(live_ids))
         return d.choice(['%d', '%da', '%d, wl_display', '%d.sync', '.commit ! %d']) % i
-    k = d.int(0, 11)
-    if k == 0: return '*'
+    k = d.int(0, 12)
+    if k == 0 or k == 12: return d.choice(['*', '*', '*.*', '* . *'])      # "everything": earlier alternatives stop mattering, earlier exclusions stay
     if k == 1: return '!'
     if k == 2: return d.choice(MALFORMED)
     if k == 3: return d.choice(['A:', 'B:', 'C:', 'B: *', 'A: *', 'B:, C:', 'A: ! .sync'])      # restricted by connection only
@@ -357,6 +357,29 @@ def make_machine(col, stage, tier, check_c10, check_c15, weights):
             self._do(['msg', addr, 1, gdbsim.closure_of_message(m, g.side, addr, decl)])
 
         @rule(data=st.data())
+        def address_reused_from_another_thread(self, data):
+            """a later connection lives at the address of a destroyed one and is served by another thread than that one was"""
+            if self.ex is None or self.ex.quit or not check_c15:
+                return
+            gone = [mc for mc in self.ex.all if not mc['open'] and mc['addr'] not in self.ex.open]
+            if not gone:
+                return
+            d = Draw(data)
+            mc = d.choice(gone)
+            addr = mc['addr']
+            thread = d.choice([t for t in (1, 2, 3) if t != mc['thread']])
+            g = histgen.ConnGen(None, d.choice(['server', 'server', 'client']), dict(reuse=0.6, weights=weights))
+            self.gens[addr] = g
+            P = histgen.protocols()
+            for k in range(d.int(1, 3)):
+                self.t += 1000
+                m = g.next(d, 'first') if k == 0 and d.chance(0.7) else g.next(d, 'sync')
+                m['conn'] = None
+                m['t_us'] = self.t
+                decl = P[m['iface']].msg(m['name']) if m['iface'] in P else None
+                self._do(['msg', addr, thread, dict(gdbsim.closure_of_message(m, g.side, addr, decl), thread_name=None)])
+
+        @rule(data=st.data())
         def destroy(self, data):
             if self.ex is None or self.ex.quit:
                 return
@@ -390,6 +413,14 @@ def make_machine(col, stage, tier, check_c10, check_c15, weights):
                 self._do(['msg', addr, 1, dict(gdbsim.closure_of_message(m, g.side, addr, decl), thread_name='main')])
                 self.gens.pop(addr, None)
                 self._do(['destroy', addr, 1, False])
+
+        @rule(data=st.data())
+        def everything_after_exclusions(self, data):
+            """`breakpoint *` while exclusions have accumulated: every message halts except the excluded ones"""
+            if self.ex is None or self.ex.quit or not check_c10 or not self.ex.bp.N or self.ex.bp.const is not None:
+                return
+            d = Draw(data)
+            self._do(['cmd', d.choice(['wl', 'w']), d.choice(['breakpoint ', 'b ']) + d.choice(['*', '*', '*.*', '* . *'])])
 
         @rule(data=st.data())
         def command(self, data):
